@@ -91,6 +91,13 @@ theorem neg_neg_float64 (x : BitVec 64) : GoFloat.neg (GoFloat.neg x) = x := neg
 theorem neg_is_not_zero_minus_counterexample :
     GoFloat.neg (0 : BitVec 64) ≠ GoFloat.sub (0 : BitVec 64) 0 := by decide +kernel
 
+/-- the one rounding every operation performs (`roundPack` → `roundShift`) is round-to-nearest, ties-to-even: dropping
+    `k ≥ 1` low bits of the exact significand `m` yields a `q'` with `|m - q' * 2^k| ≤ 2^k / 2`, and `q'` is even on a tie -/
+theorem rounding_is_nearest_even (m k : Nat) (hk : 0 < k) :
+    2 * ((m : Int) - (roundShift m k false : Int) * 2 ^ k).natAbs ≤ 2 ^ k ∧
+      (2 * ((m : Int) - (roundShift m k false : Int) * 2 ^ k).natAbs = 2 ^ k → roundShift m k false % 2 = 0) :=
+  roundShift_nearest_even m k hk
+
 /-! ### conversions -/
 
 /-- an integer of at most `prec` significant bits (24 for float32, 53 for float64) converts to float EXACTLY: converting
